@@ -585,9 +585,9 @@ fn bump_cells_bbb(bin_start: &i32, bin_end: &i32, interval_start: i32, interval_
                     forall|q: int| 0 <= q < data@.len() && !(range.start <= q < k__) ==> #[trigger] data@[q] == old(data)@[q],
 {
                 let i = cell_mut(data, k__);
-                // If NAN, then 0.0 + 1.0, else i + 1.0
 
                 proof { float_ax::float_det(); }
+                // If NAN, then 0.0 + 1.0, else i + 1.0
                 *i = (*i).max(0.0) + 1.0;
             }
             slice_bounds(covered, &range);
